@@ -121,11 +121,11 @@ partial def loop (h : IO.FS.Stream) (s : S) : IO Unit := do
     let st0 : InvState := { st with count := 0, pos := 0 }
     IO.println s!"m_inv {sh (invloopStep tbl false st x)} {sh (invloopStep tbl true st x)} {sh (invloopStep tbl false st0 x)}"
     loop h s
-  | "vend" :: lp :: slp :: lb :: sb :: lf :: len :: lps :: lpe :: sus :: sue :: rel :: sl :: _ =>
+  | "vend" :: ismod :: lp :: slp :: lb :: sb :: lf :: len :: lps :: lpe :: sus :: sue :: rel :: sl :: _ =>
     let x : SmpInfo := { loop := b lp, sloop := b slp, loopBidir := b lb, sloopBidir := b sb, loopFull := b lf,
                          len := len.toInt?.getD 0, lps := lps.toInt?.getD 0, lpe := lpe.toInt?.getD 0,
                          sus := sus.toInt?.getD 0, sue := sue.toInt?.getD 0 }
-    let r := adjustVoiceEnd x true (b rel) (b sl)
+    let r := adjustVoiceEnd x (b ismod) (b rel) (b sl)
     IO.println s!"m_vend {r.1} {r.2.1} {bi r.2.2}"
     loop h s
   | "skel_begin" :: _ => loop h {}
